@@ -212,6 +212,10 @@ type Walker struct {
 	InlineAllRuns bool
 	// FixRuns answers decisions of every new run (invariants of the input space).
 	FixRuns  func(dk, constRepr string) (int, bool)
+	// ExternStructs: composite literals of library struct types become structured values too.
+	ExternStructs bool
+	// HookRuns is the CallHook of every new run.
+	HookRuns func(fn *types.Func, recv Val, args []Val) (Val, bool)
 	MaxDepth int
 	RecLimit int
 }
@@ -250,6 +254,8 @@ type Run struct {
 	Fix func(dk string, constRepr string) (ans int, ok bool)
 	// Result of the root function (Start).
 	Result Val
+	// CallHook lets a check model library calls (constructor identities etc.).
+	CallHook func(fn *types.Func, recv Val, args []Val) (Val, bool)
 	// Inject replaces symbolic values (by provenance key) with given values.
 	Inject map[string]Val
 	// FollowSlices: also follow helpers that build and return a slice (conflict detectors).
@@ -374,7 +380,7 @@ func (w *Walker) NewRun(dec map[string]int, rotate bool) *Run {
 	if dec == nil {
 		dec = map[string]int{}
 	}
-	return &Run{W: w, Dec: dec, Rotate: rotate, usedIdx: map[string]int{}, fuel: 400000, InlineAll: w.InlineAllRuns, Fix: w.FixRuns}
+	return &Run{W: w, Dec: dec, Rotate: rotate, usedIdx: map[string]int{}, fuel: 400000, InlineAll: w.InlineAllRuns, Fix: w.FixRuns, CallHook: w.HookRuns}
 }
 
 func (r *Run) problem(pos token.Pos, format string, a ...any) {
@@ -1363,8 +1369,17 @@ func (r *Run) evalRaw(e ast.Expr, env *Env) Val {
 		return r.composite(x, env)
 	case *ast.FuncLit:
 		return &VFunc{Lit: x, Env: env, Pkg: r.pkgStack[len(r.pkgStack)-1]}
+	case *ast.IndexListExpr:
+		// explicit instantiation of a generic function: f[A, B]
+		if base, ok := r.eval(x.X, env).(*VFunc); ok {
+			return base
+		}
+		return VSym{Key: types.ExprString(x)}
 	case *ast.IndexExpr:
 		base := r.eval(x.X, env)
+		if bf, ok := base.(*VFunc); ok {
+			return bf // f[T]
+		}
 		idx := r.eval(x.Index, env)
 		if l, ok := base.(VList); ok && l.Elems != nil {
 			if iv, ok := idx.(VInt); ok && int(iv.N) < len(l.Elems) && iv.N >= 0 {
@@ -1521,7 +1536,7 @@ func (r *Run) composite(x *ast.CompositeLit, env *Env) Val {
 		name := t.String()
 		if n, ok := t.(*types.Named); ok {
 			name = n.Obj().Name()
-			if !isRepoPkg(n.Obj().Pkg()) {
+			if !isRepoPkg(n.Obj().Pkg()) && !r.W.ExternStructs {
 				return VSym{Key: types.ExprString(x), Typ: t}
 			}
 		}
@@ -1611,6 +1626,11 @@ func (r *Run) call(call *ast.CallExpr, env *Env) Val {
 		return r.inlineLit(f, call, env)
 	}
 	fn := f.Decl.Origin()
+	if r.CallHook != nil {
+		if v, ok := r.CallHook(fn, f.Recv, r.args(call, env)); ok {
+			return v
+		}
+	}
 	// sinks and known library functions
 	if fn.Pkg() != nil {
 		switch fn.Pkg().Path() {
